@@ -83,6 +83,16 @@ def main():
         rc, o = sh("go test -vet=off -count=1 -timeout 25m ./... 2>&1 | grep -v 'no test files' ; cd v2 && go test -vet=off -count=1 -timeout 25m ./... 2>&1 | grep -v 'no test files'", cwd=vf, timeout=3000)
         # the demo itself fails: ignore its package's FAIL if caused only by TestSeed
         fails = [l for l in o.splitlines() if l.startswith("--- FAIL") and ("TestSeed" + pid) not in l]
+        if fails:
+            # timing-sensitive tests can fail under load: re-run the failing tests alone, once
+            still = []
+            for l in fails:
+                t = l.split()[2]
+                rc2, o2 = sh("go test -vet=off -count=1 -run '^%s$' ./... 2>&1 | grep -v 'no test files'; cd v2 && go test -vet=off -count=1 -run '^%s$' ./... 2>&1 | grep -v 'no test files'" % (t, t), cwd=vf, timeout=1200)
+                if "--- FAIL" in o2:
+                    still.append(l)
+            meta["suite_retry"] = "re-ran %d failing test(s) alone: %d still fail" % (len(fails), len(still))
+            fails = still
         meta["suite_with_change"] = "pass" if not fails else "FAIL: " + "; ".join(fails[:5])
         # run every check on the changed tree (demo test files are _test.go: not loaded)
         rc, o = sh("%s/bin/cqoscheck -property all -repo %s -no-evidence -evidence %s/.ev -known %s/known_findings.json" % (VERIF, vf, vf, VERIF), timeout=900)
